@@ -385,12 +385,34 @@ func (a *templatedArrayObject) getLenProp() *valueProperty {
 	return lenProp
 }
 
+// _setOwnIdx maintains 'length' after an array-index property was created or redefined.
 func (a *templatedArrayObject) _setOwnIdx(idx uint32) {
 	lenProp := a.getLenProp()
 	l := uint32(lenProp.value.ToInteger())
 	if idx >= l {
 		lenProp.value = intToValue(int64(idx) + 1)
 	}
+}
+
+// checkNewIdx is step 3.b of ArrayDefineOwnProperty: an index at or beyond a non-writable length cannot be created.
+func (a *templatedArrayObject) checkNewIdx(idx uint32, throw bool) bool {
+	lenProp := a.getLenProp()
+	if idx >= uint32(lenProp.value.ToInteger()) && !lenProp.writable {
+		a.val.runtime.typeErrorResult(throw, "Cannot add property %d, length is not writable", idx)
+		return false
+	}
+	return true
+}
+
+// setNewIdx is OrdinarySet for an array index that is not an own property yet: the prototype chain first
+// (inherited setters and read-only properties), then CreateDataProperty on the array itself.
+func (a *templatedArrayObject) setNewIdx(idx uint32, name unistring.String, value Value, throw bool) bool {
+	if proto := a.proto(); proto != nil {
+		if res, handled := proto.self.setForeignStr(name, value, a.val, throw); handled {
+			return res
+		}
+	}
+	return a.defineOwnPropertyStr(name, PropertyDescriptor{Value: value, Writable: FLAG_TRUE, Enumerable: FLAG_TRUE, Configurable: FLAG_TRUE}, throw)
 }
 
 func (a *templatedArrayObject) setLength(l uint32, throw bool) bool {
@@ -419,51 +441,47 @@ func (a *templatedArrayObject) setLength(l uint32, throw bool) bool {
 		}
 	}
 	lenProp.value = intToValue(int64(l))
+	if !ret {
+		a.val.runtime.typeErrorResult(throw, "Cannot redefine property: length")
+	}
 	return ret
 }
 
 func (a *templatedArrayObject) setOwnStr(name unistring.String, value Value, throw bool) bool {
 	if name == "length" {
+		if !a.getLenProp().writable {
+			a.val.runtime.typeErrorResult(throw, "length is not writable")
+			return false
+		}
 		return a.setLength(a.val.runtime.toLengthUint32(value), throw)
 	}
-	if !a.templatedObject.setOwnStr(name, value, throw) {
-		return false
+	if idx := strToArrayIdx(name); idx != math.MaxUint32 && !a.hasOwnPropertyStr(name) {
+		return a.setNewIdx(idx, name, value, throw)
 	}
-	if idx := strToArrayIdx(name); idx != math.MaxUint32 {
-		a._setOwnIdx(idx)
-	}
-	return true
+	return a.templatedObject.setOwnStr(name, value, throw)
 }
 
 func (a *templatedArrayObject) setOwnIdx(p valueInt, v Value, throw bool) bool {
-	if !a.templatedObject.setOwnStr(p.string(), v, throw) {
-		return false
-	}
-	if idx := toIdx(p); idx != math.MaxUint32 {
-		a._setOwnIdx(idx)
-	}
-	return true
+	return a.setOwnStr(p.string(), v, throw)
 }
 
 func (a *templatedArrayObject) defineOwnPropertyStr(name unistring.String, descr PropertyDescriptor, throw bool) bool {
 	if name == "length" {
 		return a.val.runtime.defineArrayLength(a.getLenProp(), descr, a.setLength, throw)
 	}
+	idx := strToArrayIdx(name)
+	if idx != math.MaxUint32 && !a.checkNewIdx(idx, throw) {
+		return false
+	}
 	if !a.templatedObject.defineOwnPropertyStr(name, descr, throw) {
 		return false
 	}
-	if idx := strToArrayIdx(name); idx != math.MaxUint32 {
+	if idx != math.MaxUint32 {
 		a._setOwnIdx(idx)
 	}
 	return true
 }
 
 func (a *templatedArrayObject) defineOwnPropertyIdx(p valueInt, desc PropertyDescriptor, throw bool) bool {
-	if !a.templatedObject.defineOwnPropertyStr(p.string(), desc, throw) {
-		return false
-	}
-	if idx := toIdx(p); idx != math.MaxUint32 {
-		a._setOwnIdx(idx)
-	}
-	return true
+	return a.defineOwnPropertyStr(p.string(), desc, throw)
 }
